@@ -440,6 +440,12 @@ def build_lis(case):
     if cfg['kind'] == 'tables':
         recs.append(L.table_record(34, b'FILM', [b'MNEM', b'GCOD', b'GDEC', b'DEST', b'DSCA'], film_rows(cfg)))
         recs.append(pres_table(cfg))
+    if case.get('api'):
+        # the constants an API header is made of (PlotLogs -A): the plot area then starts below a header of some depth
+        recs.append(L.table_record(34, b'CONS', [b'MNEM', b'STAT', b'PUNI', b'TUNI', b'VALU'],
+                                   [[b'WN  ', b'ALLO', b'    ', b'    ', b'WELL 1'], [b'FN  ', b'ALLO', b'    ', b'    ', b'FIELD'],
+                                    [b'CN  ', b'ALLO', b'    ', b'    ', b'COMPANY'], [b'BS  ', b'ALLO', b'IN  ', b'IN  ', (8.5, b'IN  ')],
+                                    [b'EDF ', b'ALLO', b'FEET', b'FEET', (100.0, b'FEET')], [b'DD  ', b'ALLO', b'FEET', b'FEET', (1200.0, b'FEET')]]))
     absent = Fraction(-3997, 4) if case.get('absent') is None else Fraction(case['absent'])
     # the X axis may be recorded in another unit than the one the plot interval is asked in (tenths of an inch against feet)
     xunits, xfactor = (b'.1IN', 120) if case.get('xunits') == '.1IN' else (b'FEET', 1)
@@ -943,6 +949,7 @@ def run_plot(case):
             fout = os.path.join(d, 'out', 'plot')
             os.makedirs(os.path.dirname(fout), exist_ok=True)
             opts = _Opts(case['scale'], [cfg['uid']] if cfg['kind'] == 'xml' else [])
+            opts.apiHeader = bool(case.get('api'))
             with _LogCapture() as logcap:
                 plp = PlotLogs.PlotLogPasses(fin, fout, opts)
             ret = (plp.plotLogInfo.lisFileCntr, plp.plotLogInfo.lasFileCntr, plp.plotLogInfo.logPassCntr)
@@ -969,6 +976,21 @@ def run_plot(case):
                 film = cfg['uid']
             fout = os.path.join(d, 'plot.svg')
             xs = x_values(case)      # the interval first X .. last X as written to the file (exact in code 68)
+            wanted = True
+            if case.get('other_first'):
+                # one Plot object serving several log passes, as a driver that plots a whole file does: it is first asked about a
+                # pass that holds none of the plotted channels (the answer is not judged), then about this one
+                other = dict(case, chans=[['ZZ%d' % i, c[1], c[2], c[3], c[4], c[5]] for i, c in enumerate(case['chans'])], n=3)
+                fr_o = File.FileRead(io.BytesIO(build_lis(other)), 'other', keepGoing=False)
+                lp_o = list(FileIndexer.FileIndex(fr_o).genLogPasses())[0].logPass
+                try:
+                    plot.hasDataToPlotLIS(lp_o, film)
+                except Exception:  # noqa
+                    pass
+                wanted = bool(plot.hasDataToPlotLIS(lp, film))
+                if curves and not wanted:
+                    bad.append(({'kind': 'has_data_false', 'input': 'LIS', 'entry': case['entry']},
+                                '%s: hasDataToPlotLIS() is False for a pass that holds plotted channels, after the same Plot object was asked about another pass' % desc))
             ret = plot.plotLogPassLIS(fr, lp, EngVal.EngVal(xs[0], b'FEET'), EngVal.EngVal(xs[-1], b'FEET'), film, fout,
                                       frameStep=1, title='C19')
             outs = [fout] if os.path.exists(fout) else []
@@ -1220,6 +1242,8 @@ def gen_second(tier):
                     c = tables_case([film], three_curves(), three_chans(rot), n=n, down=down, scale=scale, fpr=fpr)
                     c['second'] = True
                     yield c
+                    if scale == 0:
+                        yield dict(c, other_first=True)
     for uid in list(formats())[:(3 if tier == 'quick' else 8)]:
         chs = format_channels(uid, True)
         if not chs:
@@ -1235,6 +1259,8 @@ def gen_logs_tables(tier):
                 film = [['1', 'EEE', '----', 'PF1', 'D200'], ['2', 'E20', '-4--', 'PF2', 'D500']]
                 c = tables_case(film, three_curves(False, 'BOTH' if rot % 2 else '1'), three_chans(rot), down=down, scale=scale, entry='PlotLogs')
                 yield c
+                if rot % 3 == 0:
+                    yield dict(c, api=True)        # with an API header above the plot area (-A)
     for n, fpr in ((1, 1), (2, 1), (2, 4)):
         yield tables_case([FILM_EEE], three_curves(), three_chans(1), n=n, entry='PlotLogs', fpr=fpr)
 
